@@ -35,14 +35,19 @@
 (***************************************************************************)
 EXTENDS VerifLib, Integers
 
-CONSTANTS Kind,        \* "req" or "resp"
-          Norm,        \* TRUE: header names are normalised
-          Spellings,   \* spellings of names used by Set/Add/Del
-          Typed,       \* enabled groups of typed setters: subset of {"framing", "cookie", "slot"}
+CONSTANTS Configs,     \* set of configurations [kind, norm, sp, ops, ov, typed] one of which is chosen initially
           MaxH         \* bound on Len(st.h) and Len(st.cookies)
 
-VARIABLES st, op
-vars == <<st, op>>
+VARIABLES st, op,
+          cfg          \* the configuration of this header object (never changes)
+vars == <<st, op, cfg>>
+
+Kind == cfg.kind            \* "req" or "resp"
+Norm == cfg.norm            \* TRUE: header names are normalised
+Spellings == cfg.sp         \* spellings of names used by Set/Add/Del
+Typed == cfg.typed          \* enabled groups of typed setters: subset of {"framing", "cookie", "slot"}
+Ops == cfg.ops              \* enabled generic operations: subset of {"Set", "Add", "Del"}
+OrdVals == cfg.ov           \* values used for ordinary names
 
 DefaultCT == "text/plain; charset=utf-8"       \* response default Content-Type
 DefaultReqCT == "application/octet-stream"     \* written for a request with a body and no Content-Type
@@ -88,7 +93,6 @@ TrailerNames(v) == CASE v = "X-B" -> <<"X-B">>
                      [] v = "X-C, X-B" -> <<"X-C", "X-B">>
                      [] v = "" -> <<>>
 
-OrdVals == {"v1", "v2", ""}
 ValsFor(sp) ==
   LET c == Canon(sp) IN
   IF ~IsSpecial(sp) THEN OrdVals
@@ -227,7 +231,7 @@ ReadBack(s) ==
 
 \* ------------------------------------------------------------- transitions
 Op(o, k, v) == [o |-> o, k |-> k, v |-> v]
-Init == st = Empty /\ op = Op("Init", "", "")
+Init == cfg \in Configs /\ st = Empty /\ op = Op("Init", "", "")
 
 Room(s) == Len(s.h) < MaxH /\ Len(s.cookies) < MaxH
 Set(sp, v) == Room(st) /\ st' = SetF(st, sp, v) /\ op' = Op("Set", sp, v)
@@ -262,9 +266,12 @@ TypedOps == \/ /\ "framing" \in Typed
                /\ \/ SetContentType("t1")
                   \/ SetHost("h1") \/ SetUserAgent("u1") \/ SetServer("s1") \/ SetContentEncoding("gzip")
 
-Next == \/ \E sp \in Spellings : \/ \E v \in ValsFor(sp) : Set(sp, v) \/ Add(sp, v)
-                                 \/ Del(sp)
+Step == \/ \E sp \in Spellings :
+             \/ \E v \in ValsFor(sp) : \/ ("Set" \in Ops /\ Set(sp, v))
+                                       \/ ("Add" \in Ops /\ Add(sp, v))
+             \/ ("Del" \in Ops /\ Del(sp))
         \/ TypedOps
+Next == Step /\ UNCHANGED cfg
 
 Spec == Init /\ [][Next]_vars
 
@@ -307,7 +314,8 @@ Frame ==
   LET T == Touched(op') IN
   /\ \A sp \in Spellings : Canon(sp) \notin T => PeekAll(st', sp) = PeekAll(st, sp)
   /\ Untouched(st', T) = Untouched(st, T)
-  /\ (op'.o = "Del") => PeekAll(st', op'.k) = <<>>
+  /\ (op'.o = "Del") => PeekAll(st', op'.k) =      \* (a response falls back to the default Content-Type)
+        (IF Kind = "resp" /\ Canon(op'.k) = "Content-Type" THEN <<DefaultCT>> ELSE <<>>)
   /\ (op'.o = "Set" /\ ~IsSpecial(op'.k)) =>
         /\ Peek(st', op'.k) = op'.v
         /\ Len(PeekAll(st', op'.k)) = MaxOf(1, Len(PeekAll(st, op'.k)))
